@@ -41,7 +41,7 @@ def check(ctx):
         push = ctx.one_call(b, "alloc::vec::Vec::push")
         exc = ctx.call_tests(b, f"{CQ}::is_excluded")
         ctx.guarded("1.push-only-if-not-excluded", b, [push], exc, truth=False, detail="an excluded resource is never selected")
-        ge = ctx.cmp_tests(b, "Ge", lhs="call:alloc::vec::Vec::len", rhs="local:max", depth=1)
+        ge = ctx.cmp_tests(b, "Ge", lhs="call:alloc::vec::Vec::len", rhs=ctx.pspec(u, 2), depth=1)
         ctx.guarded("1.push-only-below-max", b, [push], ge, truth=False, detail="at most `max` coins are selected")
         pr = ctx.call_tests(b, ["core::ops::function::Fn::call"])
         ctx.guarded("1.push-only-before-stop-predicate", b, [push], pr, truth=False, detail="selection stops when the predicate holds")
@@ -49,13 +49,12 @@ def check(ctx):
         ctx.arg_origin("1.pushed-coin-is-stream-item", push, 1, "call:futures_util::stream::stream::StreamExt::next", depth=1)
         ie = ctx.one_call(b, f"{CQ}::is_excluded")
         ctx.arg_origin("1.exclusion-test-on-that-coin", ie, 0, "call:futures_util::stream::stream::StreamExt::next", depth=1)
-        ctx.arg_origin("1.exclusion-test-with-query-exclude", ie, 1, "local:exclude", depth=0)
+        ctx.arg_origin("1.exclusion-test-with-query-exclude", ie, 1, ctx.pspec(u, 3), depth=0)
         tb = [c for c in b.calls_to("core::ops::try_trait::Try::branch") if c.bb in b.live]
         ctx.expect_sites("1.stream-error-propagates", tb, exactly=1, what="`coin?` on the stream item")
         ctx.dominated("1.error-checked-before-use", b, [push, ie], by_blocks=tb)
         # Vec::len under test is the result vector
-        ctx.add("1.count-is-of-result-vector", "PROV", all(atom_match(Origins(b, 0).atoms(c.args[0]), "local:coins") for c in b.calls_to("alloc::vec::Vec::len")) and
-                atom_match(Origins(b, 0).atoms(push.args[0]), "local:coins"), "len() and push() act on the same `coins` vector", sites=[push.where()], site_key="vec")
+        ctx.add("1.count-is-of-result-vector", "PROV", all(ctx.same_local(b, c.args[0], push.args[0]) for c in b.calls_to("alloc::vec::Vec::len")) and bool(b.calls_to("alloc::vec::Vec::len")), "len() and push() act on the same `coins` vector", sites=[push.where()], site_key="vec")
         xb = F.unit(f"{CQ}::is_excluded").root
         ctx.dispatch_total("1.is_excluded-dispatch", xb, KEY)
         arms = ctx.match_arms(xb, KEY)
@@ -101,12 +100,12 @@ def check(ctx):
         bc = ctx.one_call(b, f"{CQ}::big_coins")
         dc = ctx.one_call(b, f"{CQ}::dust_coins")
         md = ctx.one_call(b, f"{CQ}::max_dust_count")
-        ctx.arg_origin("2.big-coins-max", bc, 2, "local:max", depth=0)
-        ctx.arg_origin("2.big-coins-exclude", bc, 3, "local:exclude", depth=0)
-        ctx.arg_origin("2.dust-coins-exclude", dc, 3, "local:exclude", depth=0)
+        ctx.arg_origin("2.big-coins-max", bc, 2, "field:fuel_core::query::balance::asset_query::AssetSpendTarget.max", depth=0)
+        ctx.arg_origin("2.big-coins-exclude", bc, 3, ctx.pspec(u, 3), depth=0)
+        ctx.arg_origin("2.dust-coins-exclude", dc, 3, ctx.pspec(u, 3), depth=0)
         ctx.arg_origin("2.dust-budget-from-max_dust_count", dc, 2, f"call:{CQ}::max_dust_count", depth=0)
-        ctx.arg_origin("2.dust-budget-of-max", md, 0, "local:max", depth=0)
-        ctx.arg_origin("2.dust-budget-minus-big-coins", md, 1, "local:number_of_big_coins", depth=0)
+        ctx.arg_origin("2.dust-budget-of-max", md, 0, "field:fuel_core::query::balance::asset_query::AssetSpendTarget.max", depth=0)
+        ctx.arg_origin("2.dust-budget-minus-big-coins", md, 1, "call:alloc::vec::Vec::len", depth=3)
         ctx.arg_origin("2.dust-stops-at-last-big-coin", dc, 1, "call:[T]::last", depth=2)
         mb = F.unit(f"{CQ}::max_dust_count").root
         gr = ctx.one_call(mb, "rand::Rng::gen_range", "rand::rng::Rng::gen_range")
@@ -118,16 +117,17 @@ def check(ctx):
                 atom_match(o.atoms(ss.args[0]), "param:1") and atom_match(o.atoms(ss.args[1]), "param:2"),
                 "upper bound = min(factor bound, max.saturating_sub(big_coins_len))", sites=[mn.where()], site_key="clamp")
         for fn in ("big_coins", "dust_coins"):
-            fb = ctx.body_with(F.unit(f"{CQ}::{fn}"), f"{CQ}::select_coins_until")
+            fu = F.unit(f"{CQ}::{fn}")
+            fb = ctx.body_with(fu, f"{CQ}::select_coins_until")
             c = ctx.one_call(fb, f"{CQ}::select_coins_until")
-            ctx.arg_origin(f"2.{fn}-passes-max", c, 1, "local:max" if fn == "big_coins" else "local:max_dust_count", depth=0)
-            ctx.arg_origin(f"2.{fn}-passes-exclude", c, 2, "local:exclude", depth=0)
+            ctx.arg_origin(f"2.{fn}-passes-max", c, 1, ctx.pspec(fu, 3), depth=0)
+            ctx.arg_origin(f"2.{fn}-passes-exclude", c, 2, ctx.pspec(fu, 4), depth=0)
 
     with ctx.clause("3.non-indexed"):
         u = F.unit(f"{CQ}::largest_first")
         b = ctx.body_with(u, "alloc::vec::Vec::push")
         push = ctx.one_call(b, "alloc::vec::Vec::push")
-        ge = ctx.cmp_tests(b, "Ge", lhs="call:alloc::vec::Vec::len", rhs="local:max", depth=1)
+        ge = ctx.cmp_tests(b, "Ge", lhs="call:alloc::vec::Vec::len", rhs="field:fuel_core::query::balance::asset_query::AssetSpendTarget.max", depth=1)
         ctx.guarded("3.push-only-below-max", b, [push], ge, truth=False, detail="largest_first never selects more than max coins")
         mx = variant_aggs(b, "MaxCoinsReached")
         ins = variant_aggs(b, "InsufficientCoins")
@@ -136,22 +136,22 @@ def check(ctx):
         ctx.guarded("3.max-reached-only-at-max", b, [bb for bb, _ in mx], ge, truth=True)
         ap = ctx.value_tests(b, "field:fuel_core::query::balance::asset_query::AssetSpendTarget.allow_partial", depth=0)
         ctx.guarded("3.max-reached-only-if-not-partial", b, [bb for bb, _ in mx], ap, truth=False)
-        lt = ctx.cmp_tests(b, "Lt", lhs="local:collected_amount", rhs="local:target", depth=0)
+        lt = ctx.cmp_tests(b, "Lt", lhs="call:u128::saturating_add", rhs="field:fuel_core::query::balance::asset_query::AssetSpendTarget.target", depth=1)
         ctx.guarded("3.insufficient-only-under-shortfall", b, [bb for bb, _ in ins], lt, truth=True)
         sk = [c for x in u.bodies for c in x.calls if c.bb in x.live and c.name in ("sort_by_key", "sort_by", "sort_unstable_by_key")]
         ctx.expect_sites("3.sorted-largest-first", sk, exactly=1, what="sort by Reverse(amount)")
         co = ctx.one_call(b, f"{AQ}::AssetQuery::coins")
-        ctx.arg_origin("3.candidates-from-asset-query", co, 0, "local:query", depth=1)
+        ctx.arg_origin("3.candidates-from-asset-query", co, 0, ctx.pspec(u, 1), depth=1)
         ru = F.unit(f"{CQ}::random_improve")
         rb = ctx.body_with(ru, "alloc::vec::Vec::truncate")
         tr = ctx.one_call(rb, "alloc::vec::Vec::truncate")
-        ctx.arg_origin("3.random_improve-truncates-to-max", tr, 1, "local:max", depth=0)
+        ctx.arg_origin("3.random_improve-truncates-to-max", tr, 1, "field:fuel_core::query::balance::asset_query::AssetSpendTarget.max", depth=0)
         rp = ctx.one_call(rb, "alloc::vec::Vec::push", nth=0) if False else [c for c in rb.calls_to("alloc::vec::Vec::push") if c.bb in rb.live]
         ctx.expect_sites("3.random_improve-pushes", rp, exactly=2, what="coins.push / coins_per_asset.push")
         lf = ctx.one_call(rb, f"{CQ}::largest_first")
-        ltt = ctx.cmp_tests(rb, "Lt", lhs="local:collected_amount", rhs="local:target", depth=0)
+        ltt = ctx.cmp_tests(rb, "Lt", lhs="call:u128::saturating_add", rhs="field:fuel_core::query::balance::asset_query::AssetSpendTarget.target", depth=1)
         ctx.guarded("3.random_improve-fallback-on-shortfall", rb, [lf], ltt, truth=True)
-        ctx.dominated("3.random_improve-truncate-before-selection", rb, [c for c in rp if atom_match(Origins(rb, 0).atoms(c.args[0]), "local:coins")], by_blocks=[tr])
+        ctx.dominated("3.random_improve-truncate-before-selection", rb, [c for c in rp if atom_match(Origins(rb, 1).atoms(c.args[1]), "call:core::iter::traits::iterator::Iterator::next")], by_blocks=[tr])
 
     with ctx.clause("4.asset-query-filters"):
         A = f"{AQ}::AssetsQuery"
